@@ -21,7 +21,8 @@ func loneCROnly(src []byte, res *drive.Result) bool {
 		return false
 	}
 	for _, e := range res.Errs {
-		if e == nil || e.Pos == nil || !strings.HasPrefix(e.Msg, "WARNING: Unexpected character") || !strings.Contains(e.Msg, "(ASCII=13)") {
+		// recognised by what it selects (exactly the carriage return), not by its wording
+		if e == nil || e.Pos == nil || e.Pos.EndPos != e.Pos.StartPos+1 {
 			return false
 		}
 		p := e.Pos.StartPos
